@@ -8,7 +8,7 @@ rsync -a --exclude .git --exclude .scratch --exclude 'coq/Cases/*' /verif/ $vc/
 cd $vc && VERIF_REPO=$wt timeout 3000 ./check $pid --tier $tier > $vc/out.txt 2>&1; rc=$?
 grep -E "^(VIOLATION|KNOWN-FINDING|PASS|FAIL|BROKEN|  what|  broken)" $vc/out.txt | head -20
 echo "exit=$rc"
-{ echo "check=$pid tier=$tier repo_head=$(git -C /repo rev-parse --short HEAD) verif_head=$(git -C /verif rev-parse --short HEAD) date=$(date -u +%FT%TZ) exit=$rc"; grep -E "^(VIOLATION|PASS|FAIL|BROKEN|  what|  broken)" $vc/out.txt | head -8; } > $d/result-$pid.txt
+{ echo "check=$pid tier=$tier repo_head=$(git -C /repo rev-parse --short HEAD) verif_head=$(git -C /verif rev-parse --short HEAD) date=$(date -u +%FT%TZ) exit=$rc"; grep -E "^(VIOLATION|PASS|FAIL|BROKEN|  what|  broken)" $vc/out.txt | head -8; } >> $d/result-$pid.txt
 # replay file for the record
 rp=$(grep -o "replay=[^ ]*" $vc/out.txt | head -1 | cut -d= -f2)
 [ -n "$rp" ] && [ -f "$rp" ] && { echo "--- replay $rp"; head -c 1500 "$rp"; echo; }
